@@ -256,6 +256,8 @@ static void xml_roundtrip(hwloc_topology_t t)
   if (rc2 == 0) {
     hwv_dump_topology(stdout, t2, 0);
     if (check_child(t2)) printf("check2 ok\n"); else printf("check2 abort %s\n", check_msg);
+    /* the CPU kinds are not part of the dump: their number before and after the XML round trip */
+    printf("xmlkinds %d %d\n", hwloc_cpukinds_get_nr(t, 0), hwloc_cpukinds_get_nr(t2, 0));
   }
   hwloc_topology_destroy(t2);
   hwloc_free_xmlbuffer(t, buf);
